@@ -76,6 +76,26 @@ def c08_conformance(tier, seed):
     return out
 
 
+@extra("C03")
+def c03_conformance(tier, seed):
+    if tier != "thorough":
+        return []
+    C.load_all()
+    out = []
+    for con in C.CONTRACTS.values():
+        if con.replay and con.replay.get("module") == "replay.c03_ins":
+            t0 = time.time()
+            rec = {"property": "C03", "function": con.func,
+                   "contract_key": con.key[1], "file": con.file,
+                   "replay": con.replay, "cex": None,
+                   "obligation": f"{con.key[1]}::conformance"}
+            rc, o = _run(rec)
+            out.append(_entry("C03", f"{con.key[1]}::conformance[bounded]",
+                              rc, o, t0, "concrete importance-sampler "
+                              "instance (real ImportanceFlowProposal)"))
+    return out
+
+
 @extra("C11")
 def c11_conformance(tier, seed):
     if tier != "thorough":
